@@ -1,24 +1,14 @@
 /-
 C05  Result columns are exactly the final frame: names, count and order.
 Theorems about the mirror of `deduplicate_select_items`, the step that decides which select items of a
-block survive.
+block survive (as repaired by the commit `fix: deduplicate_select_items compares whole identifiers`).
 -/
 import PrqlModel.Model.Projection
 namespace Props.C05
 open Model.Projection
 
-theorem anyInsert_seen_mono (seen : List Ident) (ps : List Ident) (x : Ident) (h : x ∈ seen) :
-    x ∈ (anyInsert seen ps).2 := by
-  induction ps with
-  | nil => simpa [anyInsert]
-  | cons p rest ih =>
-    simp only [anyInsert]
-    split
-    · exact ih
-    · simp [h]
-
 /-- nothing is invented or reordered: the result is a sublist of the input -/
-theorem dedup_sublist (seen : List Ident) (items : List Item) : (dedupFrom seen items).Sublist items := by
+theorem dedup_sublist (seen : List (List Ident)) (items : List Item) : (dedupFrom seen items).Sublist items := by
   induction items generalizing seen with
   | nil => simp [dedupFrom]
   | cons it rest ih =>
@@ -26,8 +16,8 @@ theorem dedup_sublist (seen : List Ident) (items : List Item) : (dedupFrom seen 
     | compound ps =>
       simp only [dedupFrom]
       split
-      · exact (ih _).cons₂ _
       · exact (ih _).cons _
+      · exact (ih _).cons₂ _
     | aliased a =>
       simp only [dedupFrom]
       split
@@ -35,119 +25,62 @@ theorem dedup_sublist (seen : List Ident) (items : List Item) : (dedupFrom seen 
       · exact (ih _).cons₂ _
     | other => simp only [dedupFrom]; exact (ih _).cons₂ _
 
-/-- an item survives when one of its identifiers is new -/
-theorem anyInsert_true_of_fresh (seen : List Ident) (ps : List Ident) (p : Ident) (hp : p ∈ ps) (hf : p ∉ seen) :
-    (anyInsert seen ps).1 = true := by
-  induction ps with
-  | nil => cases hp
-  | cons q rest ih =>
-    simp only [anyInsert]
-    split
-    · next hq =>
-      have : p ≠ q := by
-        intro h; subst h
-        exact hf (by simpa using hq)
-      have hp' : p ∈ rest := by
-        cases hp with
-        | head => exact absurd rfl this
-        | tail _ h => exact h
-      exact ih hp'
-    · rfl
+/-- the keys (whole identifiers) of the items, in order -/
+def keys (items : List Item) : List (List Ident) := items.filterMap Item.key
 
-/-- the identifiers seen after the scan all come from `seen` or from the items scanned -/
-theorem anyInsert_seen_sub (seen ps : List Ident) (x : Ident) (h : x ∈ (anyInsert seen ps).2) :
-    x ∈ seen ∨ x ∈ ps := by
-  induction ps with
-  | nil => left; simpa [anyInsert] using h
-  | cons p rest ih =>
-    simp only [anyInsert] at h
-    split at h
-    · rcases ih h with h1 | h1
-      · exact Or.inl h1
-      · exact Or.inr (by simp [h1])
-    · simp only [List.mem_cons] at h
-      rcases h with rfl | h
-      · exact Or.inr (by simp)
-      · exact Or.inl h
-
-/-- **no_merge_partial**: if every item mentions an identifier that no earlier item (nor the initial
-set) mentions – e.g. all column names are pairwise different and differ from the relation names – then no
-select item is dropped. -/
-def FreshChain : List Ident → List Item → Prop
-  | _, [] => True
-  | seen, it :: rest =>
-    (it = .other ∨ ∃ p ∈ it.idents, p ∉ seen) ∧ FreshChain (it.idents ++ seen) rest
-
-theorem dedupFrom_mono_seen (seen seen' : List Ident) (items : List Item)
-    (hsub : ∀ x, x ∈ seen' → x ∈ seen) (hc : FreshChain seen items) : FreshChain seen' items := by
-  induction items generalizing seen seen' with
-  | nil => trivial
-  | cons it rest ih =>
-    refine ⟨?_, ?_⟩
-    · rcases hc.1 with h | ⟨p, hp, hf⟩
-      · exact Or.inl h
-      · exact Or.inr ⟨p, hp, fun h => hf (hsub p h)⟩
-    · apply ih (it.idents ++ seen) _ _ hc.2
-      intro x hx
-      simp only [List.mem_append] at hx ⊢
-      rcases hx with h | h
-      · exact Or.inl h
-      · exact Or.inr (hsub x h)
-
-theorem no_merge_partial (seen : List Ident) (items : List Item) (h : FreshChain seen items) :
+/-- **no_merge**: select items whose identifiers are pairwise different (and not yet seen) all survive -
+in particular two columns of the same name under different relations (`t0.k`, `t1.k`) are both kept. -/
+theorem no_merge_from (seen : List (List Ident)) (items : List Item)
+    (hnd : (keys items).Nodup) (hfresh : ∀ k ∈ keys items, k ∉ seen) :
     dedupFrom seen items = items := by
   induction items generalizing seen with
   | nil => rfl
   | cons it rest ih =>
-    obtain ⟨hfresh, hrest⟩ := h
     cases it with
     | other =>
       simp only [dedupFrom]
-      rw [ih seen (dedupFrom_mono_seen _ _ _ (by intro x hx; simp [hx]) hrest)]
-    | aliased a =>
-      have hna : a ∉ seen := by
-        rcases hfresh with h | ⟨p, hp, hf⟩
-        · cases h
-        · simp [Item.idents] at hp; subst hp; exact hf
-      have : seen.contains a = false := by simpa using hna
-      simp only [dedupFrom, this]
-      rw [ih (a :: seen) (dedupFrom_mono_seen _ _ _ (by intro x hx; simpa [Item.idents] using hx) hrest)]
-      rfl
+      have hk0 : keys (Item.other :: rest) = keys rest := by simp [keys, List.filterMap_cons, Item.key]
+      rw [ih seen (hk0 ▸ hnd) (by intro k hk; exact hfresh k (hk0 ▸ hk))]
     | compound ps =>
-      obtain ⟨p, hp, hf⟩ : ∃ p ∈ ps, p ∉ seen := by
-        rcases hfresh with h | h
-        · cases h
-        · simpa [Item.idents] using h
-      have hk := anyInsert_true_of_fresh seen ps p hp hf
-      simp only [dedupFrom, hk, if_true]
-      rw [ih _ (dedupFrom_mono_seen _ _ _ ?_ hrest)]
-      intro x hx
-      rcases anyInsert_seen_sub seen ps x hx with h | h
-      · simp [h]
-      · simp [Item.idents, h]
+      have h1 : ps ∉ seen := hfresh ps (by simp [keys, Item.key])
+      have h1' : seen.contains ps = false := by simpa using h1
+      have hnd' : ps ∉ keys rest ∧ (keys rest).Nodup := by simpa [keys, Item.key] using hnd
+      simp only [dedupFrom, h1']
+      rw [ih (ps :: seen) hnd'.2 ?_]
+      · rfl
+      · intro k hk
+        simp only [List.mem_cons, not_or]
+        refine ⟨?_, hfresh k (by simp [keys, Item.key] at hk ⊢; exact Or.inr hk)⟩
+        intro hkp; subst hkp; exact hnd'.1 hk
+    | aliased a =>
+      have h1 : [a] ∉ seen := hfresh [a] (by simp [keys, Item.key])
+      have h1' : seen.contains [a] = false := by simpa using h1
+      have hnd' : [a] ∉ keys rest ∧ (keys rest).Nodup := by simpa [keys, Item.key] using hnd
+      simp only [dedupFrom, h1']
+      rw [ih ([a] :: seen) hnd'.2 ?_]
+      · rfl
+      · intro k hk
+        simp only [List.mem_cons, not_or]
+        refine ⟨?_, hfresh k (by simp [keys, Item.key] at hk ⊢; exact Or.inr hk)⟩
+        intro hkp; subst hkp; exact hnd'.1 hk
 
-/-- the full statement of "no selected column is dropped or merged": whenever the items are pairwise
-different select items, all of them survive -/
-def NoMergeFull : Prop := ∀ items : List Item, items.Nodup → (∀ it ∈ items, it ≠ .other) → dedup items = items
+theorem no_merge (items : List Item) (hnd : (keys items).Nodup) : dedup items = items :=
+  no_merge_from [] items hnd (by intro k _ h; cases h)
 
-/-- … is FALSE for the code as it stands: `t0.a, t0.k, t1.u, t1.k` loses `t1.k` (both `t1` and `k` were seen) -/
-theorem no_merge_counterexample : ¬ NoMergeFull := by
-  intro h
-  have := h [.compound [['t','0'], ['a']], .compound [['t','0'], ['k']], .compound [['t','1'], ['u']], .compound [['t','1'], ['k']]]
-    (by decide) (by decide)
-  revert this
-  decide
-
-/-- what is lost in the counterexample is a column of the second relation -/
+/-- the case that was lost before the repair: `t0.a, t0.k, t1.u, t1.k` -/
 example : dedup [.compound [['t','0'], ['a']], .compound [['t','0'], ['k']], .compound [['t','1'], ['u']], .compound [['t','1'], ['k']]]
-    = [.compound [['t','0'], ['a']], .compound [['t','0'], ['k']], .compound [['t','1'], ['u']]] := by decide
+    = [.compound [['t','0'], ['a']], .compound [['t','0'], ['k']], .compound [['t','1'], ['u']], .compound [['t','1'], ['k']]] := by decide
 
--- non-vacuity of `FreshChain`: distinct column names under two relations
-example : FreshChain [] [.compound [['t'], ['a']], .compound [['t'], ['b']], .aliased ['x'], .compound [['u'], ['c']]] := by
-  simp [FreshChain, Item.idents]
+/-- exact repetitions are still removed (first occurrence wins) -/
+theorem dedup_removes_repetition (ps : List Ident) (rest : List Item) (seen : List (List Ident)) (h : ps ∈ seen) :
+    dedupFrom seen (.compound ps :: rest) = dedupFrom seen rest := by
+  have : seen.contains ps = true := by simpa using h
+  simp only [dedupFrom, this, if_true]
+
+example : dedup [.compound [['t'], ['a']], .aliased ['x'], .compound [['t'], ['a']], .aliased ['x']] = [.compound [['t'], ['a']], .aliased ['x']] := by decide
 
 /-- `kept` (indices, as reported by the hook) describes `dedup` -/
-theorem kept_length (seen : List Ident) (i : Nat) (items : List Item) :
+theorem kept_length (seen : List (List Ident)) (i : Nat) (items : List Item) :
     (keptFrom seen i items).length = (dedupFrom seen items).length := by
   induction items generalizing seen i with
   | nil => rfl
